@@ -601,8 +601,8 @@ def gen_c09_grid(R, tier):
         if k < 0.12 and nag:
             a = R.randrange(nag)
             if impl.agents[a].pos is not None:
-                x, y = any_coord(R, w, h)
-                b.add(f"move {a} {x} {y}")
+                # in-grid targets only: C09 scenarios must not depend on torus_adj (that is C08's business)
+                b.add(f"move {a} {R.randrange(w)} {R.randrange(h)}")
             continue
         if keys and R.random() < 0.3:
             pos, moore, ic, r = R.choice(keys)  # a repeated key: answered from the cache
